@@ -17,7 +17,9 @@ META = dict(
          "edges, up to 70000, random) are sent through a real keyed Packetizer for every cipher x MAC x "
          "compression combination the tree offers, in both roles, with 1-4 key epochs per stream (in-band NEWKEYS, "
          "optionally changing the suite, optionally strict-kex counter resets), delayed zlib@openssh.com switch-on, "
-         "partial socket writes, packet counters started next to the 32-bit wrap, and are read back by a second real "
+         "partial socket writes, socket.timeout/EAGAIN between any two reads or writes, a re-key pending on the receiver "
+         "(scaled thresholds; NeedRekeyException handled as Transport.run does), an identification line whose over-read "
+         "sits in the remainder buffer, packet counters started next to the 32-bit wrap, and are read back by a second real "
          "Packetizer under byte-wise / small / random / inside-length-and-MAC read fragmentation. The delivered "
          "(type, payload) list must equal the sent list and the receiver must end waiting at end of stream. "
          "The GCM invocation counter must advance by exactly one per packet on both sides. An independent receiver "
@@ -89,10 +91,18 @@ def plan_stream(rng, cipher, mac, comp, role, suites, quick):
     frag = rng.choice(FRAGS)
     if total > 40000 and frag in ("byte", "small"):
         frag = "random"
-    return dict(cipher=cipher, mac=mac, comp=comp, role=role, lens=lens, rekey_at=rekey_at, epochs=epochs,
+    # re-key pending on the receiver (scaled thresholds) with the header split across reads and timeouts between
+    rx_rekey = None
+    if rng.random() < 0.25:
+        rx_rekey = ("packets", rng.randint(1, 6)) if rng.random() < 0.7 else ("bytes", rng.randint(40, 600))
+        if frag == "whole":
+            frag = rng.choice(["byte", "small", "edges", "random"] if total <= 40000 else ["edges", "random"])
+    plan_rx_rekey = rx_rekey
+    return dict(rx_rekey=plan_rx_rekey, cipher=cipher, mac=mac, comp=comp, role=role, lens=lens, rekey_at=rekey_at, epochs=epochs,
                 auth_at=auth_at, strict=strict, seq0=seq0, frag=frag,
                 partial=rng.random() < 0.2, compressible=rng.random() < 0.5,
-                banner=rng.random() < 0.15, rx_hiccups=rng.random() < 0.15, tx_hiccups=rng.random() < 0.1,
+                banner=rng.random() < 0.15, rx_hiccups=(rx_rekey is not None) or rng.random() < 0.15,
+                tx_hiccups=rng.random() < 0.1,
                 hash=rng.choice(pb.HASHES))
 
 
@@ -150,9 +160,15 @@ def judge_stream(ctx, rng, p, b):
     wire = b.wire()
     maclen = 64
     frag, cuts = pb.frag_named(rng, p["frag"], b.boundaries(), maclen)
-    rx = b.receiver()
+    rk = p["rx_rekey"]
+    rx = b.receiver(rekey_packets=rk[1] if rk and rk[0] == "packets" else None,
+                    rekey_bytes=rk[1] if rk and rk[0] == "bytes" else None)
     outcome = rx.drain(wire, frag=frag, cuts=cuts, banner=BANNER if p["banner"] else None,
-                       hiccup=hiccups(rng, 0.15) if p["rx_hiccups"] else None)
+                       hiccup=hiccups(rng, 0.25 if rk else 0.15) if p["rx_hiccups"] else None)
+    ctx.count("needrekey_exceptions_seen", rx.needrekey_seen)
+    ctx.count("headers_split_with_timeout_while_rekey_pending", rx.split_headers_rekey_pending)
+    if rk:
+        ctx.count("streams_with_rekey_pending_on_receiver", 1 if rx.t.packetizer.need_rekey() else 0)
     if outcome[0] == "banner":
         ctx.inconclusive("bench could not read its own identification line: %r" % (outcome[1],))
         return
@@ -346,7 +362,7 @@ def run(ctx):
                 break
             p = plan_stream(rng, c, m, comp, role, suites, ctx.quick)
             fp = (c, m, comp, role, p["strict"], tuple(p["lens"]), tuple(p["rekey_at"]), tuple(p["epochs"]),
-                  p["auth_at"], p["seq0"], p["frag"], p["partial"], p["hash"], p["banner"], p["rx_hiccups"], p["tx_hiccups"])
+                  p["auth_at"], p["seq0"], p["frag"], p["partial"], p["hash"], p["banner"], p["rx_hiccups"], p["tx_hiccups"], p["rx_rekey"])
             ctx.case(fp, sample=describe(p) if (rep == 0 and i < 24) else None)
             ctx.count("combo_%s_comp_%s" % (mode_of(c, m), "on" if comp != "none" else "off"))
             try:
@@ -371,6 +387,8 @@ def run(ctx):
     ctx.require("aead_counter_steps_seen", 200)
     ctx.require("ref_streams_decoded", 400)
     ctx.require("streams_with_banner_remainder", 50)
+    ctx.require("needrekey_exceptions_seen", 300)
+    ctx.require("headers_split_with_timeout_while_rekey_pending", 300)
     ctx.require("socket_hiccups_injected", 500)
     ctx.require("fullstack_sessions_compared", 4)
     ctx.require("fullstack_rekeys", 4)
